@@ -26,7 +26,7 @@ SOLVERS = {
 }
 ORDER = ['z3-5.1', 'cvc5-1.0.3', 'z3-4.8.12']
 
-MAXPAR = int(os.environ.get('PYVC_JOBS', '12'))
+MAXPAR = int(os.environ.get('PYVC_JOBS', '5'))
 
 
 def solver_versions():
@@ -80,22 +80,74 @@ class Result:
                 'all': {k: (v[0], round(v[1], 3)) for k, v in self.outputs.items()}}
 
 
+def _classify(out, err, dt, timeout):
+    first = out.splitlines()[0].strip() if out else ''
+    if first not in ('sat', 'unsat', 'unknown', 'timeout'):
+        low = (out + err).lower()
+        if 'timeout' in low or 'interrupted' in low or 'resourceout' in low:
+            first = 'timeout'
+        else:
+            first = 'error'
+    if first == 'unknown':
+        low = (out + err).lower()
+        if 'timeout' in low or 'canceled' in low or 'resource' in low or 'interrupted' in low or dt >= timeout - 0.5:
+            first = 'timeout'
+    return first
+
+
 def solve(text, timeout=30, tier='quick', order=None):
-    """Run the portfolio.  quick: stop at first definite answer; thorough: run all and require agreement."""
+    """Race the portfolio on one query.  quick: first definite answer wins and the others are killed;
+    thorough: every solver runs to completion and a sat/unsat disagreement is an error."""
     order = order or ORDER
+    d = tempfile.mkdtemp(prefix='pyvc-')
+    fn = os.path.join(d, 'q.smt2')
+    with open(fn, 'w') as f:
+        f.write(text)
+    procs = {}
+    t0 = time.time()
     outputs = {}
-    verdict, by, secs = None, None, 0.0
-    for s in order:
-        v, dt, out, err = run_one(s, text, timeout)
-        outputs[s] = (v, dt, out if v != 'error' else (out + '\n' + err)[:2000])
-        secs += dt
-        if v in ('sat', 'unsat'):
-            if verdict is None:
-                verdict, by = v, s
-            elif verdict != v:
-                verdict, by = 'error', 'DISAGREE:%s/%s' % (by, s)
-            if tier == 'quick':
-                break
+    try:
+        for s in order:
+            procs[s] = subprocess.Popen(SOLVERS[s](fn, timeout), stdout=subprocess.PIPE, stderr=subprocess.PIPE, text=True)
+        pending = dict(procs)
+        verdict, by = None, None
+        while pending:
+            done = [s for s, p in pending.items() if p.poll() is not None]
+            if not done:
+                if time.time() - t0 > timeout + 10:
+                    for s, p in pending.items():
+                        p.kill()
+                        outputs[s] = ('timeout', time.time() - t0, '')
+                    pending = {}
+                    break
+                time.sleep(0.005)
+                continue
+            for s in done:
+                p = pending.pop(s)
+                out, err = p.communicate()
+                dt = time.time() - t0
+                v = _classify((out or '').strip(), (err or '').strip(), dt, timeout)
+                outputs[s] = (v, dt, (out or '').strip() if v != 'error' else ((out or '') + '\n' + (err or ''))[:2000])
+                if v in ('sat', 'unsat'):
+                    if verdict is None:
+                        verdict, by = v, s
+                    elif verdict != v:
+                        verdict, by = 'error', 'DISAGREE:%s/%s' % (by, s)
+            if verdict in ('sat', 'unsat') and tier == 'quick':
+                for s, p in pending.items():
+                    p.kill()
+                    try:
+                        p.communicate(timeout=5)
+                    except Exception:
+                        pass
+                    outputs[s] = ('killed', time.time() - t0, '')
+                pending = {}
+    finally:
+        for p in procs.values():
+            if p.poll() is None:
+                p.kill()
+        shutil.rmtree(d, ignore_errors=True)
+    secs = time.time() - t0
     if verdict is None:
         vs = [o[0] for o in outputs.values()]
         if 'unknown' in vs:
